@@ -93,7 +93,18 @@ def run(ctx):
                 n += 1
                 ctx.ob("R01.2", "%s:%s:%d-byte %s" % (q, d["data"], len(r), d["dir"]), ok, site=A.where(r[0][4]), detail=d,
                        what="byte sequence of %s in %s is not big-endian: shifts %s" % (d["data"], q, d["shifts"]))
-    ctx.require_count("R01.2", 13)
+                if ok:
+                    try:
+                        bad, ncases = BO.check_values(r)
+                    except Exception as e:
+                        from .. import fdeval as _FD
+                        if isinstance(e, _FD.Unknown):
+                            raise AnalysisBroken("R01.2: sequence at %s not evaluable: %s" % (A.where(r[0][4]), e))
+                        raise
+                    ctx.ob("R01.2", "%s:%s:%d-byte %s values" % (q, d["data"], len(r), d["dir"]), not bad, site=A.where(r[0][4]),
+                           detail={"patterns": ncases, "mismatches": bad[:4]},
+                           what="%s of %s in %s does not reproduce the bytes: %s" % (d["dir"], d["data"], q, bad[:2]))
+    ctx.require_count("R01.2", 26)
 
     # ---- R01.3
     pad_obligations(ctx, u, "R01.3", ["vsosc_null", "rtosc_amessage", "arg_start", "arg_off", "arg_size", "rtosc_message_ring_length"])
